@@ -107,12 +107,17 @@ def pyIntE (s : Str) : Except PyErr Int :=
 /-- Python `str.isdigit()` restricted to ASCII digits (see `readNatU`). -/
 def isDigitStr (s : Str) : Bool := !s.isEmpty && s.all fun c => '0' ≤ c && c ≤ '9'
 
-/-- Python `<` on `str`: lexicographic on code points -/
-def slt : Str → Str → Bool
+/-- lexicographic lifting of a strict order to lists (Python's sequence comparison) -/
+def lexLt {α} (lt : α → α → Bool) : List α → List α → Bool
   | [], [] => false
   | [], _ :: _ => true
   | _ :: _, [] => false
-  | a :: as, b :: bs => if a.toNat < b.toNat then true else if b.toNat < a.toNat then false else slt as bs
+  | a :: as, b :: bs => if lt a b then true else if lt b a then false else lexLt lt as bs
+
+def charLt (a b : Char) : Bool := a.toNat < b.toNat
+
+/-- Python `<` on `str`: lexicographic on code points -/
+def slt : Str → Str → Bool := lexLt charLt
 
 /-- association-list lookup (Python dict with `in` / `[]`) -/
 def lookup {α β} [DecidableEq α] (k : α) : List (α × β) → Option β
